@@ -694,6 +694,18 @@ class CommandPipeline:
             elif XSH.shell is not None:
                 # Fallback when no saved state is available.
                 XSH.shell.shell.restore_tty_sanity()
+            # A PopenThread disables the suspend character in its constructor,
+            # which may be BEFORE the state above was saved (``$(cmd)``: the
+            # PopenThread is the first proc), and its own restore ran while the
+            # terminal still belonged to the job (EINTR, swallowed). Now that
+            # the shell is in the foreground again, put the character back.
+            for p in self.procs:
+                restore = getattr(p, "_restore_suspend_keybind", None)
+                if restore is not None:
+                    try:
+                        restore()
+                    except Exception:
+                        pass
 
     def resume(self, job, tee_output=True):
         self.ended = False
